@@ -1,4 +1,6 @@
-(* The per-run proof obligations: the checker, evaluated by the kernel (vm_compute) on the skeleton that the
+(* Definitions for the per-run proof obligations (the obligations themselves are in Skel/Obl*.v, one file per monitor, so
+   that a change that breaks one discipline breaks the properties resting on that discipline and no other).
+   The per-run proof obligations: the checker, evaluated by the kernel (vm_compute) on the skeleton that the
    translator regenerated from /repo on THIS run (Gen/Skel.v).  A code change that moves a closed-flag check outside the
    lock, drops or splits a lock, writes after close, touches a guarded field without its guard, changes the callback
    order or loses a semaphore release turns one of these booleans into false: the Qed fails. *)
@@ -27,25 +29,3 @@ Definition handler_ok (s : stmt) : bool := check mh mh_eqb mh_step h_bad 200 mh_
 Definition readers : list stmt := map snd (filter (fun x => match class_of x with EReader => true | _ => false end) entry_points).
 (* the goroutines the read loop starts directly: the parallel message handlers *)
 Definition handlers : list stmt := flat_map spawns readers.
-
-Theorem translator_understood_everything : translator_unknowns = 0.
-Proof. vm_compute. reflexivity. Qed.
-
-Theorem skel_ok_close : forallb close_ok conn_programs = true.
-Proof. vm_compute. reflexivity. Qed.
-
-Theorem skel_ok_frame : forallb frame_ok conn_programs = true.
-Proof. vm_compute. reflexivity. Qed.
-
-Theorem skel_ok_lock : forallb (fun p => lock_ok (fst p) (snd p)) lock_programs = true.
-Proof. vm_compute. reflexivity. Qed.
-
-Theorem skel_ok_lifecycle : forallb cb_ok readers = true /\ (2 <=? List.length readers) = true.
-Proof. vm_compute. split; reflexivity. Qed.
-
-Theorem skel_ok_handlers : forallb handler_ok handlers = true /\ (1 <=? List.length handlers) = true.
-Proof. vm_compute. split; reflexivity. Qed.
-
-(* non-vacuity of the obligations: the sets are not empty and contain the write path *)
-Theorem skel_nonvacuous : (20 <=? List.length conn_programs) = true /\ (40 <=? List.length lock_programs) = true.
-Proof. vm_compute. split; reflexivity. Qed.
